@@ -273,6 +273,43 @@ Theorem C12_refuse_names_first_edited :
    HS (concat (firstn (S j) (f_stmts f))) = HS (concat (firstn (S j) old))).
 Proof. exact (C12_attribution_lemma hash hash_eqb HS hash_eqb_spec). Qed.
 
+(** 15, 16. The same, for histories in which the file also changes between the
+    attempts: [file_history f t] = attempts through the store under arbitrary
+    fault streams (only while the file is pending) interleaved with edits that
+    leave the recorded applied part alone (tail-only edits; any edit while no
+    revision exists). This is the "fails twice" history: attempt 1 stops at k+1,
+    the tail is fixed, attempt 2 applies more and stops at k2+1. Whatever the
+    history, the stored partial hashes are those of the statements really
+    applied ([file_history_stored_ok]), hence
+    - an edit of any applied statement (applied by whichever attempt) is refused
+      under every fault stream -- [C12_refuse_names_first_edited] says which
+      statement is named;
+    - a tail-only edit resumes and completes. *)
+Theorem C12_history_refuse :
+  forall (f f_new : file) (t : list (rev hash)) (r : rev hash),
+  file_history hash hash_eqb HS f t -> f_version f_new = f_version f ->
+  tbl_get t (f_version f) = Some r -> 0 < r_applied r -> r_applied r <> r_total r ->
+  firstn (r_applied r) (f_stmts f_new) <> firstn (r_applied r) (f_stmts f) ->
+  forall fs o t' fs' es, execute_st hash hash_eqb HS f_new t fs = (o, t', fs', es) ->
+  collision_at hash HS (f_stmts f) (f_stmts f_new) (r_applied r) \/
+  (exec_events es = [] /\ t' = t /\ o <> SExec ODone /\
+   (hd false fs = false -> hd false (tl fs) = false ->
+      exists i, o = SExec (OHistory i) /\ 1 <= i <= r_applied r)).
+Proof. exact (C12_history_refuse_lemma hash hash_eqb HS hash_eqb_spec). Qed.
+
+Theorem C12_history_tail :
+  forall (f f_new : file) (t : list (rev hash)) (r : rev hash),
+  file_history hash hash_eqb HS f t -> f_version f_new = f_version f ->
+  tbl_get t (f_version f) = Some r -> r_applied r <> r_total r ->
+  firstn (r_applied r) (f_stmts f_new) = firstn (r_applied r) (f_stmts f) ->
+  exists t' es r',
+    execute_st hash hash_eqb HS f_new t [] = (SExec ODone, t', [], es) /\
+    journal es = map (pair (f_version f_new)) (skipn (r_applied r) (f_stmts f_new)) /\
+    tbl_get t' (f_version f_new) = Some r' /\
+    r_applied r' = length (f_stmts f_new) /\ r_total r' = length (f_stmts f_new) /\ r_hashes r' = [] /\
+    (forall v', v' <> f_version f_new -> tbl_get t' v' = tbl_get t v').
+Proof. exact (C12_history_tail_lemma hash hash_eqb HS hash_eqb_spec). Qed.
+
 End C12.
 
 Print Assumptions C12_refuse.
@@ -292,6 +329,8 @@ Print Assumptions C12_progress_never_lost.
 Print Assumptions C12_end_to_end_refuse.
 Print Assumptions C12_end_to_end_tail.
 Print Assumptions C12_refuse_names_first_edited.
+Print Assumptions C12_history_refuse.
+Print Assumptions C12_history_tail.
 
 (** Non-vacuity: a concrete table/file meeting the hypotheses of 1 and 3,
     with [HS] the identity on byte strings (a legitimate instance). *)
@@ -414,6 +453,33 @@ Example C12_refuse_names_first_edited_nonvacuous :
   fst (fst (fst (execute bytes bytes_eqb ex_HS (mkFile [49%N] [[65%N]] false) [ex_rev] []))) = OHistory 2 /\
   fst (fst (fst (execute bytes bytes_eqb ex_HS (mkFile [49%N] [[66%N]; [66%N]; [67%N]] false) [ex_rev] []))) = OHistory 1.
 Proof. vm_compute. repeat split; auto; discriminate. Qed.
+
+(** a double failure: A B C fails at its 2nd statement; the tail becomes D E F (A D E F); the second attempt
+    applies D and E and fails at F: the stored revision records A D E, of both attempts *)
+Definition ex_file_mid : file := mkFile [49%N] [[65%N]; [68%N]; [69%N]; [70%N]] false.
+Example C12_history_nonvacuous :
+  exists t r,
+    file_history bytes bytes_eqb ex_HS ex_file_mid t /\
+    tbl_get t [49%N] = Some r /\ r_applied r = 3 /\ r_total r = 4 /\
+    r_hashes r = firstn 3 (sums bytes ex_HS (f_stmts ex_file_mid)) /\
+    (* D (applied by the second attempt) edited: refused, statement 2 named *)
+    fst (fst (fst (execute_st bytes bytes_eqb ex_HS (mkFile [49%N] [[65%N]; [71%N]; [69%N]; [70%N]] false) t []))) = SExec (OHistory 2) /\
+    (* tail fixed: completes *)
+    fst (fst (fst (execute_st bytes bytes_eqb ex_HS (mkFile [49%N] [[65%N]; [68%N]; [69%N]; [72%N]; [73%N]] false) t []))) = SExec ODone.
+Proof.
+  eexists _, _. split.
+  - eapply (FH_attempt bytes bytes_eqb ex_HS ex_file_mid _ [false; false; false; false; false; false; true]).
+    + eapply (FH_tail_edit bytes bytes_eqb ex_HS ex_file_old ex_file_mid).
+      * eapply (FH_attempt bytes bytes_eqb ex_HS ex_file_old [] [false; false; false; false; true]).
+        -- apply FH_first. reflexivity.
+        -- intros r H. discriminate.
+        -- vm_compute. reflexivity.
+      * reflexivity.
+      * intros r H. vm_compute in H. inversion H; subst. split; [vm_compute; discriminate|reflexivity].
+    + intros r H. vm_compute in H. inversion H; subst. vm_compute. discriminate.
+    + vm_compute. reflexivity.
+  - vm_compute. repeat split; reflexivity.
+Qed.
 
 (** Clause (a) is needed. With a store that reports a failing lookup as
     "revision does not exist" ([execute_st_lax]: `if err != nil { return nil,
